@@ -277,7 +277,8 @@ impl C19 {
             // lower bound: what this transaction delivered (the backlog - donations and earlier deliveries not yet
             // indexed - may be distributed now or later); upper bound: delivery plus backlog
             let lo = Uint256::from(delivered) * Uint256::from(E18);
-            if growth > hi || growth + lo_slack < lo {
+            // (one base unit above: a contract may carry the sub-unit remainder of an earlier update's division)
+            if growth > hi + Uint256::from(E18) || growth + lo_slack < lo {
                 out.violation(P, "holders_receive_delivery", format!("delivered {} (+ backlog {}) but holders' accrued total grew by {} e-18 (expected {} e-18 minus at most {} e-18)", delivered, backlog, growth, hi, lo_slack));
             }
             if x > 0 {
